@@ -61,6 +61,9 @@ func (FixedWindow) New(cfg Config) fiber.Handler {
 		// Calculate when it resets in seconds
 		resetInSec := e.exp - ts
 
+		// The window this hit is counted in
+		windowEnd := e.exp
+
 		// Set how many hits we have left
 		remaining := maxRequests - e.currHits
 
@@ -90,9 +93,13 @@ func (FixedWindow) New(cfg Config) fiber.Handler {
 			// Lock entry
 			mux.Lock()
 			e = manager.get(key)
-			e.currHits--
+			// The hit is given back to the window it was counted in. When the handler outlived
+			// that window there is nothing to give back: the next window must not start below zero
+			if e.exp == windowEnd {
+				e.currHits--
+				manager.set(key, e, cfg.Expiration)
+			}
 			remaining++
-			manager.set(key, e, cfg.Expiration)
 			// Unlock entry
 			mux.Unlock()
 		}
